@@ -685,7 +685,10 @@ Definition resetForRetry (st : state) (rnd : Z) : state :=
     let st := fold_left q (h_list (spH si)) st in
     let st := fold_left q (h_list (spH (sApp st))) st in
     let ni := newSpace (g_sequential (g_peek (spG si))) in
-    let na := newSpace (g_skipping (g_peek (spG (sApp st))) sph_SkipPacketInitialPeriod sph_SkipPacketMaxPeriod rnd) in
+    (* repaired: the old generator is popped, so a packet number it was about to skip is recorded in the new history *)
+    let '(skipped, pn, _) := g_pop (spG (sApp st)) 0 in
+    let na0 := newSpace (g_skipping pn sph_SkipPacketInitialPeriod sph_SkipPacketMaxPeriod rnd) in
+    let na := if skipped then sp_setH na0 (h_skipped newHist (pn - 1)) else na0 in
     let st := st_spaces st (Some ni) (sHs st) na in
     st_pto (st_alarm st noAlarm) 0 (sPtoM st) (sProbes st)
   end.
@@ -745,12 +748,15 @@ Definition space_live (st : state) (l : Z) : bool := is_some (get_space st l).
     arrive at the 0-RTT level; DropPackets is only called for Initial/Handshake/0-RTT; a Retry is only
     processed by a client that still has its Initial space, has sent no Handshake packet and has no
     path probe outstanding; path
-    probes are 1-RTT packets carrying only non-stream frames; sizes are non-negative. *)
+    probes are 1-RTT packets carrying only non-stream frames, every one with a handler (detectLostPathProbes calls
+    f.Handler.OnLost without a nil check; the packer only puts PATH_CHALLENGE / PATH_RESPONSE frames with the path
+    manager's handler into probe packets); sizes are non-negative. *)
 Definition op_valid (st : state) (o : op) : bool :=
   match o with
   | OSend l _ _ sfs fs size mtu probe _ =>
     space_live st l && lvl_ok l && (0 <=? size) &&
-    (if probe then (l =? sph_Enc1RTT) && isnil sfs && negb (isnil fs) && negb mtu else true)
+    (if probe then (l =? sph_Enc1RTT) && isnil sfs && negb (isnil fs) && negb mtu else true) &&
+    (if probe then forallb (fun id => 0 <=? id) fs else true)
   | OAck l _ _ rs => space_live st l && lvl_ok l && negb (l =? sph_Enc0RTT) && ack_valid rs
   | OTimeout _ _ => true
   | ODrop l _ => (l =? sph_EncInitial) || (l =? sph_EncHandshake) || (l =? sph_Enc0RTT)
